@@ -15,6 +15,7 @@ from xdsl.dialects.x86.registers import (
     RSP,
     GeneralRegisterType,
 )
+from xdsl.ir import SSAValue
 from xdsl.passes import ModulePass
 from xdsl.rewriter import InsertPoint
 
@@ -41,6 +42,21 @@ class X86PrologueEpilogueInsertion(ModulePass):
 
         if not used_callee_preserved_registers:
             return
+
+        # The pushes below move the stack pointer: accesses relative to the stack pointer
+        # (stack arguments are loaded from [rsp + 8], [rsp + 16], ...) move with it.
+        pushed_bytes = 8 * len(used_callee_preserved_registers)
+        for op in func.walk():
+            memory = getattr(op, "memory", None)
+            offset = op.attributes.get("memory_offset")
+            if (
+                isinstance(memory, SSAValue)
+                and memory.type == RSP
+                and isinstance(offset, builtin.IntegerAttr)
+            ):
+                op.attributes["memory_offset"] = builtin.IntegerAttr(
+                    offset.value.data + pushed_bytes, offset.type
+                )
 
         builder = Builder(InsertPoint.at_start(func.body.blocks[0]))
         sp_register = builder.insert(x86.GetRegisterOp(RSP))
